@@ -16,13 +16,15 @@ try:
     p = subprocess.run(['patch', '-p1', '-s', '--no-backup-if-mismatch', '-i', os.path.join(VERIF, 'seeded', seed, 'patch.diff')], cwd=tmp)
     if p.returncode:
         sys.exit('seed patch does not apply')
-    path = os.path.join(tmp, 'pynetdicom2', rel)
-    s = open(path).read()
-    for old, new in edits:
+    edits = [e if len(e) == 3 else [rel] + list(e) for e in edits]
+    for rel_, old, new in edits:
+        path = os.path.join(tmp, 'pynetdicom2', rel_)
+        s = open(path).read()
         if s.count(old) != 1:
-            sys.exit('replacement text occurs %d times: %r' % (s.count(old), old[:60]))
+            sys.exit('replacement text occurs %d times in %s: %r' % (s.count(old), rel_, old[:60]))
         s = s.replace(old, new)
-    open(path, 'w').write(s)
+        open(path, 'w').write(s)
+    edits = [(o, n) for _r, o, n in edits]
     r = subprocess.run(['/venv/bin/python', '-m', 'pytest', '-q', '-p', 'no:cacheprovider', 'tests/test_dimsemessages.py', 'tests/test_pdu.py'],
                        cwd=tmp, capture_output=True, text=True)
     print('tests:', r.stdout.strip().splitlines()[-1])
